@@ -1039,6 +1039,7 @@ class Case:
         mode = {'+': 'add', '-': 'remove', '': 'replace'}[op['mode']]
         wrong: set[int] = set()
         noeffect: set[int] = set()
+        unanswered: set[int] = set()
         applied = 0
         lats: list[str] = []
         for p, (m, row) in enumerate(zip(msgs, rows), 1):
@@ -1060,7 +1061,7 @@ class Case:
                     lats += lat
                     if not op['silent'] and not responded:
                         if same:
-                            wrong.add(p)
+                            unanswered.add(p)
                         else:
                             self.report(
                                 'store-nonsilent-missing-fetch',
@@ -1108,6 +1109,18 @@ class Case:
                             sorted(noeffect), sorted(msgs[p - 1].flags)))
         else:
             wrong |= noeffect
+        if unanswered and not wrong and not self.step_failed:
+            # flags already had the requested value, so only the missing
+            # response shows: required for every addressed message
+            self.report(self.blame(op, unanswered,
+                                   'store-nonsilent-missing-fetch'),
+                        'positions %r are addressed by %r, their flags needed '
+                        'no change, and no FETCH FLAGS response was sent for '
+                        'them (responses for %r)' % (
+                            sorted(unanswered), op['set'],
+                            sorted(n for n, _, _ in info['fetch'])))
+        else:
+            wrong |= unanswered
         if wrong:
             self.report(self.blame(op, wrong, 'uidset-wrong' if op['uid']
                                    else 'store-wrong-messages'),
@@ -1927,12 +1940,22 @@ class Case:
 
 
 def transcript(c: Conn | None, limit: int) -> list[str]:
+    """Wire transcript, server fragments joined into response lines."""
     if c is None:
         return []
+    groups: list[tuple[str, bytearray]] = []
+    for _, d, data in c.transcript:
+        if groups and groups[-1][0] == d and d == 'S':
+            groups[-1][1].extend(data)
+        else:
+            groups.append((d, bytearray(data)))
     out = []
-    for step, d, data in c.transcript:
-        out.append('%s%d %s' % (d, c.cid, repr(
-            data if len(data) <= 260 else data[:260] + b'...')))
+    for d, blob in groups:
+        parts = re.split(rb'(?<=\r\n)(?=\* |t\d+\.\d+ |\+ )', bytes(blob)) \
+            if d == 'S' else [bytes(blob)]
+        for part in parts:
+            out.append('%s%d %s' % (d, c.cid, repr(
+                part if len(part) <= 300 else part[:300] + b'...')))
     return out[-limit:]
 
 
@@ -1960,25 +1983,25 @@ class C10(Check):
         'C04, C17, C07, C03 and only used here to identify messages',
         'latitudes 1-8 of the module docstring (counted as lat_*)',
         'dict and maildir(++) backends; redis cannot run here']
-    floors = {'steps_compared': 8000, 'dumps_compared': 9000,
-              'flag_comparisons': 40000, 'views_compared': 7000,
-              'cmd_store': 900, 'cmd_uid_store': 700, 'cmd_fetch': 500,
-              'cmd_uid_fetch': 400, 'cmd_expunge': 400,
-              'cmd_uid_expunge': 400, 'cmd_copy': 300, 'cmd_uid_copy': 250,
-              'cmd_move': 250, 'cmd_uid_move': 200, 'cmd_append': 2500,
-              'cmd_close': 200, 'store_messages_addressed': 3000,
-              'seen_set_checks': 700, 'seen_kept_checks': 700,
-              'expunge_expected_removals': 500, 'copies_compared': 1000,
-              'copyuid_checked': 500, 'append_dates_compared': 1000,
-              'uid_expunge_set_spares_deleted': 40, 'final_dumps': 1500,
-              'shape_star': 100, 'shape_reversed': 100,
-              'shape_star-range': 200, 'shape_u-star': 100,
-              'shape_u-reversed': 100, 'shape_u-star-range': 200,
-              'shape_dup': 50, 'lat_oor_ok': 50}
-    time_cap = {'quick': 75.0, 'thorough': 700.0}
+    floors = {'steps_compared': 19000, 'dumps_compared': 22000,
+              'flag_comparisons': 70000, 'views_compared': 13000,
+              'cmd_store': 1900, 'cmd_uid_store': 1600, 'cmd_fetch': 1100,
+              'cmd_uid_fetch': 900, 'cmd_expunge': 850,
+              'cmd_uid_expunge': 1000, 'cmd_copy': 700, 'cmd_uid_copy': 550,
+              'cmd_move': 450, 'cmd_uid_move': 400, 'cmd_append': 7000,
+              'cmd_close': 450, 'store_messages_addressed': 4000,
+              'seen_set_checks': 1100, 'seen_kept_checks': 1800,
+              'expunge_expected_removals': 800, 'copies_compared': 2500,
+              'copyuid_checked': 1400, 'append_dates_compared': 3500,
+              'uid_expunge_set_spares_deleted': 180, 'final_dumps': 1900,
+              'shape_star': 330, 'shape_reversed': 300,
+              'shape_star-range': 1100, 'shape_u-star': 350,
+              'shape_u-reversed': 170, 'shape_u-star-range': 1000,
+              'shape_dup': 450, 'lat_oor_ok': 1000}
+    time_cap = {'quick': 90.0, 'thorough': 720.0}
 
     def cases(self, tier: str, seed: int) -> Iterable[dict[str, Any]]:
-        n = 2800 if tier == 'quick' else 40000
+        n = 2400 if tier == 'quick' else 40000
         rng = random.Random(seed * 7919 + 10)
         for i in range(n):
             r = rng.random()
